@@ -72,4 +72,33 @@ theorem history_then_set (cs : List α) (p q : Phs α) (d : α) (h : history p c
   unfold Phs.setTransverseDiameter
   rw [(history_cmin cs p q h).1, history_setC cs p q d h]
 
+/-! ### `uniformProlateHyperspheroid` uses the PHS's own dimension and only this call's draws -/
+
+/-- a successful sample used a direction of exactly the PHS's dimension (one `uniformNormalVector` of that size + one
+uniform for the radius) and is the transform of that ball point -/
+theorem uniformPhs_some (root : Nat → α → α) (p : Phs α) (dir : List α) (u : α) (x : List α)
+    (h : uniformPhs root p dir u = some x) :
+    dir.length = p.dim ∧ (uniformInBall root (Num.ofNat 1) dir u).length = p.dim ∧
+    p.transform (uniformInBall root (Num.ofNat 1) dir u) = some x := by
+  unfold uniformPhs at h
+  split at h
+  · rename_i hl
+    refine ⟨hl, ?_, h⟩
+    simp [uniformInBall, ballPoint, hl]
+  · cases h
+
+theorem uniformPhsRun_append (root : Nat → α → α) (a b : List (Phs α × List α × α)) :
+    uniformPhsRun root (a ++ b) = uniformPhsRun root a ++ uniformPhsRun root b := by
+  induction a with
+  | nil => rfl
+  | cons x xs ih =>
+    obtain ⟨p, dir, u⟩ := x
+    simp only [List.cons_append, uniformPhsRun, ih]
+
+/-- whatever was sampled before (any PHSs of any dimensions, any draws), the result of the next call is the same -/
+theorem uniformPhsRun_last (root : Nat → α → α) (hist : List (Phs α × List α × α)) (p : Phs α) (dir : List α) (u : α) :
+    (uniformPhsRun root (hist ++ [(p, dir, u)])).getLast? = some (uniformPhs root p dir u) := by
+  rw [uniformPhsRun_append]
+  simp [uniformPhsRun]
+
 end OmplModel.Phs.PhsState
